@@ -80,6 +80,15 @@ func checkC09(c *Ctx) {
 			}, ".mu")
 		}
 	}
+	c.Rule("R9.11", "locked syncers hold their mutex exclusively across the inner Write and Sync (Lock exists to make a sink that is not safe for concurrent use safe - two Syncs inside it at once are a race); the cell an AtomicLevel points at is never replaced once it exists (a plain pointer store racing with every reader)", 3)
+	for _, m := range []string{"Write", "Sync"} {
+		if fn := c.Method(CorePath, "lockedWriteSyncer", m); c.Anchor("R9.11", "zapcore.lockedWriteSyncer."+m, fn != nil) {
+			LockedAcross(c, "R9.11", fn, func(cl ssa.CallInstruction) bool {
+				return IsCallTo(cl, "(io.Writer).Write", "(go.uber.org/zap/zapcore.WriteSyncer).Sync", "(go.uber.org/zap/zapcore.WriteSyncer).Write")
+			}, "Mutex")
+		}
+	}
+	c5PointerStable(c, "R9.11")
 	c.Rule("R9.9", "package-level tables are read-only after initialisation (or written under a lock)", 1)
 	c9GlobalTables(c, "R9.9")
 	c.Rule("R9.8", "no object is touched after it went back to its pool (the next owner may be another goroutine), and derived handlers/cores never share a slice tail with their parent", 8)
